@@ -52,6 +52,9 @@ JUMPY = [
     "{{ x and y and a.b }}", "{{ x or y or a.b }}", "{{ a.b and (c.d or e.f) }}",
     "{% if x and a.b %}1{% elif y or c.d %}2{% else %}{{ e.f }}{% endif %}",
     "{{ __tera_context }}", "{{ loop.index }}", "{% for k, v in a %}{{ k }}={{ v.y }};{% endfor %}",
+    "{{ __tera_context.x }}", "{% if __tera_context.a.b %}1{% endif %}", "{{ __tera_context.c.d or 'n' }}", "{{ __tera_context['x'] }}", "{{ (__tera_context | length) > 0 }}",
+    "{% for i in a.xs %}{{ loop.index }}{{ loop.last }}{% endfor %}", "{{ a.b if x else c.d }}{{ e.f }}", "{{ x if a.b else c.d }}", "{% set v = x if y else a.b %}{{ v }}",
+    "{{ [a.b, c.d][0] }}", "{{ a.b | default(value=1) if x else c.d }}", "{% if a.b %}{% elif c.d %}{{ e.f }}{% endif %}",
 ]
 JCTX = [
     {},
